@@ -276,6 +276,31 @@ Section ManagerProofs.
       split; [exact Hsp|apply mem2_head].
   Qed.
 
+  (** What prior state each message kind needs in order to be processed at all (everything else
+      is an error of the dispatch, before any handler runs). *)
+  Theorem dispatch_preconditions st m ev :
+    snd (process fixed st m) = Done ev ->
+    match mkind m with
+    | KKeyBundle _ => True
+    | KAuth a => supported a = true
+    | KSpaceMembership sp ref =>
+        exists a, lookup ref (stored st) = Some (SAuth a) /\ supported a = true /\
+                  (memN sp (spaces st) = true \/ is_create a = true)
+    | KSpaceUpdate _ => False
+    | KApplication sp => memN sp (spaces st) = true
+    end.
+  Proof.
+    unfold Spaces.process, run_handler. cbn [su_rejects promote_rejects kb_guard app_guard fixed andb].
+    destruct (mkind m) as [bb|ac|sp r|sp|sp] eqn:Hk; auto.
+    - destruct (supported ac); cbn [negb]; [reflexivity|discriminate].
+    - destruct (lookup r (stored st)) as [[|a| | |]|] eqn:Hl; cbn [fst snd]; try discriminate.
+      destruct (supported a) eqn:Hs; cbn [negb]; [|discriminate].
+      destruct (memN sp (spaces st) || is_create a) eqn:Hsp; cbn [fst snd]; [|discriminate].
+      intros _. exists a. repeat split; auto. apply orb_true_iff, Hsp.
+    - discriminate.
+    - destruct (memN sp (spaces st)); [reflexivity|discriminate].
+  Qed.
+
   Lemma store_present (st : mstate S) m : exists v, lookup (mid m) (stored (store_msg st m)) = Some v.
   Proof.
     unfold store_msg. destruct (lookup (mid m) (stored st)) eqn:Hl.
